@@ -111,6 +111,15 @@ def main(argv=None):
         for sig, what in fails:
             total.fail(sig, "[corpus %s] %s" % (os.path.basename(path), what), case)
 
+    # import ioflo once in the parent so forked workers do not each recompile it (-B: no .pyc);
+    # failures are left to the workers / the check itself to report
+    if getattr(mod, "IMPORTS_IOFLO", True):
+        try:
+            import ioflo  # noqa: F401
+            env.quiet_ioflo()
+        except BaseException:
+            pass
+
     # 2. generated search, sharded over processes
     shards = list(mod.plan(a.tier))
     procs = a.procs or (8 if a.tier == "quick" else 16)
